@@ -132,12 +132,8 @@ func ruleC06Default(c *Ctx) {
 		return
 	}
 	seen := map[string]bool{}
-	allInstrs(finish, func(in ssa.Instruction) {
-		st, ok := in.(*ssa.Store)
-		if !ok {
-			return
-		}
-		mi, ok := st.Val.(*ssa.MakeInterface)
+	judge := func(st *ssa.Store, val ssa.Value, facts []condFact) {
+		mi, ok := val.(*ssa.MakeInterface)
 		if !ok {
 			return
 		}
@@ -150,7 +146,7 @@ func ruleC06Default(c *Ctx) {
 			return
 		}
 		var nilOK, paramTruth, paramKnown bool
-		for _, f := range factsAt(st.Block()) {
+		for _, f := range facts {
 			cond, truth := normCond(f.Cond, f.Truth)
 			if c.resolve(cond) == ssa.Value(param) {
 				paramKnown, paramTruth = true, truth
@@ -175,6 +171,21 @@ func ruleC06Default(c *Ctx) {
 		default:
 			c.hold("C06.default", g.Name(), st.Pos(), fmt.Sprintf("installed iff filter==nil ∧ defaultAll==%v", wantTruth))
 		}
+	}
+	allInstrs(finish, func(in ssa.Instruction) {
+		st, ok := in.(*ssa.Store)
+		if !ok {
+			return
+		}
+		if phi, isPhi := st.Val.(*ssa.Phi); isPhi {
+			// `fallback := None; if defaultAll { fallback = All }; filter = fallback`
+			for i, e := range phi.Edges {
+				facts := append(factsOnEdge(phi.Block().Preds[i], phi.Block()), factsAt(st.Block())...)
+				judge(st, e, facts)
+			}
+			return
+		}
+		judge(st, st.Val, factsAt(st.Block()))
 	})
 	for _, g := range []string{"AllReferencesFilter", "NoReferencesFilter"} {
 		if !seen[g] {
@@ -749,7 +760,15 @@ func ruleC06Flex(c *Ctx) {
 			if !ok {
 				return false
 			}
-			l, ok := cmp.X.(*ssa.Call)
+			// len(s) op n, or (len(s) - k) op n  ==  len(s) op n+k
+			lhs := cmp.X
+			var off int64
+			if bo, isBO := lhs.(*ssa.BinOp); isBO && bo.Op == token.SUB {
+				if k, isK := constInt(bo.Y); isK {
+					lhs, off = bo.X, k
+				}
+			}
+			l, ok := lhs.(*ssa.Call)
 			if !ok || !isBuiltin(&l.Call, "len") || l.Call.Args[0] != ssa.Value(s) {
 				return false
 			}
@@ -757,6 +776,7 @@ func ruleC06Flex(c *Ctx) {
 			if !ok {
 				return false
 			}
+			n += off
 			switch {
 			case cmp.Op == token.GEQ && truth:
 				return n >= min
@@ -941,6 +961,10 @@ func ruleC06Flex(c *Ctx) {
 									if fa, isFA := r.(*ssa.FieldAddr); isFA {
 										for _, st := range storesTo(fa) {
 											if st.Val == ssa.Value(lk) {
+												okWrap = true
+											}
+											// `rg, ok := groups[name]`: the looked-up group is element 0 of the lookup
+											if ex, isEx := st.Val.(*ssa.Extract); isEx && ex.Tuple == ssa.Value(lk) && ex.Index == 0 {
 												okWrap = true
 											}
 										}
